@@ -647,7 +647,30 @@ func ZZ_C11_callbacks() {
 	e.Define("applyVoid", func(f func()) { f() })
 	var seen int64
 	e.Define("see", func(v int64) { seen = v })
-	switch zz.Choose(14) {
+	e.Define("applyV", func(f func(...int64) int64) int64 { got = f(x, y, 7); return got })
+	e.Define("applySV", func(f func(string, ...int64) int64) int64 { got = f("s", x, y); return got })
+	switch zz.Choose(19) {
+	case 14:
+		r, err := Execute(e, nil, "applyV(func(a...) { return len(a) * 1000 + a[0] - a[1] })")
+		ri, ok := r.(int64)
+		zz.Assert(err == nil && ok && ri == 3000+x-y, "C11.callback/variadic-go-func-type/variadic-script-function")
+	case 15:
+		r, err := Execute(e, nil, "applyV(func(a, b...) { return len(b) * 1000 + a - b[0] })")
+		ri, ok := r.(int64)
+		zz.Assert(err == nil && ok && ri == 2000+x-y, "C11.callback/variadic-go-func-type/leading-parameter")
+	case 16:
+		r, err := Execute(e, nil, "applySV(func(s, a...) { return len(a) * 1000 + a[0] - a[1] })")
+		ri, ok := r.(int64)
+		zz.Assert(err == nil && ok && ri == 2000+x-y, "C11.callback/variadic-go-func-type/after-fixed-go-parameter")
+	case 17:
+		// a non-variadic script function gets Go's variadic arguments as one list
+		r, err := Execute(e, nil, "applyV(func(a) { return a[0] - a[1] })")
+		ri, ok := r.(int64)
+		zz.Assert(err == nil && ok && ri == x-y, "C11.callback/variadic-go-func-type/non-variadic-script-function-gets-the-list")
+	case 18:
+		r, err := Execute(e, nil, "applySV(func(s, a) { return a[0] - a[1] })")
+		ri, ok := r.(int64)
+		zz.Assert(err == nil && ok && ri == x-y, "C11.callback/variadic-go-func-type/non-variadic-script-function-gets-the-list")
 	case 10:
 		// a variadic script function receives the arguments Go passes as its list
 		_, err := Execute(e, nil, "apply2(func(a...) { return a[0] - a[1] })")
